@@ -23,6 +23,23 @@ ASSUMPTIONS = [
 OPTINT = Union(NoneT(), Int())
 RELAXED = Union(NoneT(), Bool())
 
+from pyvc.replay import py_replay  # noqa: E402
+
+_NI = """
+from passlib.utils.handlers import norm_integer
+class Hd: name = 'handler'
+def want(value, mn, mx, relaxed):
+    if not isinstance(value, int): return ('TypeError', None)
+    lo = value < mn; hi = bool(mx) and value > mx
+    if not relaxed and (lo or hi): return ('ValueError', None)
+    v = mn if lo else value
+    if mx and v > mx: v = mx
+    return (None, v)
+"""
+REPLAY_NORM = py_replay(_NI, "r = norm_integer(Hd, V['value'], V['min'], V['max'], relaxed=V['relaxed'])",
+                        "(lambda w: (type(exc).__name__ if exc else None, r) == w or (w[0] is not None and isinstance(exc, (ValueError, TypeError)) and issubclass(type(exc), {'ValueError': ValueError, 'TypeError': TypeError}[w[0]])))(want(V['value'], V['min'], V['max'], V['relaxed']))",
+                        {"value": 0, "min": 1, "max": None, "relaxed": False}, alts={"value": {1: "x", 2: None}, "max": {0: None}, "relaxed": {0: None}})
+
 norm_integer = Contract(
     "norm_integer", f"{H}::norm_integer",
     params={"handler": Obj(fields={"name": "handler"}), "value": Union(Int(), Str(), NoneT()), "min": Int(), "max": Opt(Int()), "param": Const("value"), "relaxed": RELAXED},
@@ -40,6 +57,7 @@ norm_integer = Contract(
         ("an admissible value is never changed", f"implies(value >= min and not ({eff('max')} and value > max), result == value)"),
         ("relaxed clamps to the nearest limit", f"implies(relaxed and value < min and not ({eff('max')} and min > max), result == min) and implies(relaxed and value >= min and {eff('max')} and value > max, result == max)"),
     ],
+    replay=REPLAY_NORM,
     descr="all ints / wrong types, limits None or int, relaxed None/False/True",
 )
 
